@@ -64,9 +64,14 @@ class LoopCtx:
                 self.names[role] = shared[role]
                 continue
             if preferred in self.env.locals:
-                self.names[role] = preferred
-                shared[role] = preferred
-                continue
+                try:
+                    fits = bool(pred(self.env.locals[preferred]))
+                except Exception:       # noqa: BLE001
+                    fits = False
+                if fits:
+                    self.names[role] = preferred
+                    shared[role] = preferred
+                    continue
             cands = []
             for n, v in self.env.locals.items():
                 if n in params or n in self.names.values():
@@ -116,6 +121,28 @@ class LoopSpec:
         self.variant = variant          # lc -> int expression decreasing on every iteration (while loops)
 
     def execute(self, interp, s, env):
+        """a specification that does not fit the code it is attached to (a loop-carried local of another shape, a
+        restructured loop) makes the unit UNDECIDED; it is never reported as a violation or a checker crash"""
+        inv0, hav0, var0 = self.invariant, self.havoc, self.variant
+
+        def guard(f, what):
+            if f is None:
+                return None
+
+            def g(lc):
+                try:
+                    return f(lc)
+                except (TypeError, AttributeError, KeyError, IndexError, ValueError) as e:
+                    raise Unsupported("loop specification %s: its %s does not fit the code (%s: %s)"
+                                      % (self.name, what, type(e).__name__, e))
+            return g
+        self.invariant, self.havoc, self.variant = guard(inv0, "invariant"), guard(hav0, "havoc"), guard(var0, "variant")
+        try:
+            return self._execute(interp, s, env)
+        finally:
+            self.invariant, self.havoc, self.variant = inv0, hav0, var0
+
+    def _execute(self, interp, s, env):
         from .interp import BreakEx, ContinueEx
         ctx = sym.ctx()
         lc = LoopCtx(ctx, interp, env, self)
